@@ -74,8 +74,35 @@ def c11(tier, seed):
     )
 
 
+SWEEP_MUSTHIT = ["musthit:cut_at_chunk_edge", "musthit:final_chunk_shorter_than_tag", "musthit:cut_inside_tag",
+                 "musthit:cut_at_end_marker", "musthit:cut_inside_footer"]
+
+
+def c02(tier, seed):
+    return generic(
+        "C02", tier, seed, level="fault_enumeration", budgets=(90, 900),
+        rule="fault = truncation of a valid archive at length n; every n (scaled constants) or every n within 40 bytes of every structural "
+             "boundary plus a random sample (production constants) is repaired in both decryption modes and the output re-read with the "
+             "normal reader; distinct = distinct (program, n, mode); non-trivial = the cut lies after the header and before the end",
+        musthit=SWEEP_MUSTHIT,
+    )
+
+
+def c05(tier, seed):
+    return generic(
+        "C05", tier, seed, level="fault_enumeration", budgets=(100, 1200),
+        rule="(a) undamaged archives (compressed streams ending on and next to block edges, every level, three entropies, many small entries) "
+             "are repaired and must come back complete with status EndOfOriginalArchiveData; (b)(c) truncation sweeps as in C02 with the recovered "
+             "length per file tracked along increasing prefix lengths (monotonicity) and compared with the model's lower bound (no compression); "
+             "distinct = distinct (program, n, mode); non-trivial = cut strictly inside the archive",
+        musthit=SWEEP_MUSTHIT + ["musthit:intact_compressed_point_on_block_edge", "musthit:many_small_entries", "monotonicity_comparisons"],
+    )
+
+
 PROPS = {
     "C01": c01,
+    "C02": c02,
+    "C05": c05,
     "C11": c11,
 }
 
